@@ -532,7 +532,12 @@ class Datamodel:
                 if k in self._remote2local[event.objtype]:
                     for dest in self._remote2local[event.objtype][k]:
                         remoteattr = self._datamodel[objtype]["attrsmapping"][dest]
-                        if isinstance(
+                        if isinstance(remoteattr, Template) and source == "removed":
+                            # The value of a removed attribute is meaningless (None
+                            # in remote events): don't render the template, its vars
+                            # are undefined
+                            attrs[dest] = None
+                        elif isinstance(
                             remoteattr, Template
                         ):  # May be a compiled Jinja Template
                             if new_obj is None:
